@@ -33,4 +33,5 @@ def run(env: Env) -> Outcome:
     policy.correspondence(env, out, env.budget(6000, 120000))
     policy.extreme_and_seed_stream(env, out, env.budget(600, 12000))
     policy.algebra_stream(env, out, env.budget(1500, 30000))
+    policy.units_stream(env, out, env.budget(150, 3000))
     return out
